@@ -498,7 +498,10 @@ def simplifyParens (p : PK) (e : E) : E :=
   | .paren this =>
     if eIsPredicate this && !(pkIsPredicate p || p = .neg || pkIsBinaryNonConn p) then this
     else if p = .none || p = .other || p = .paren then this
-    else if !eIsBinary this && !((match this with | .not _ => true | .is _ _ => true | _ => false) && pkIsPredicate p) then this
+    else if !eIsBinary this && !((match this with | .not _ => true | .is _ _ => true | _ => false) && pkIsPredicate p)
+        -- NOT and the non-binary predicates bind looser than arithmetic and unary minus (kept since the text-level fix)
+        && !((eIsPredicate this || (match this with | .not _ => true | _ => false)) && (p = .neg || p = .add || p = .sub || p = .mul))
+      then this
     else match this, p with
       | .add _ _, .add => this
       | .mul _ _, .mul => this
@@ -885,6 +888,7 @@ def nonNullE : E → Bool
   | .not a => nonNullE a
   | .and a b | .or a b => nonNullE a && nonNullE b
   | .is _ .null => true
+  | .is _ (.bool _) => true
   | _ => false
 
 def upd (σ : E → B3) (x : E) (v : B3) : E → B3 := fun y => if y = x then v else σ y
@@ -915,6 +919,74 @@ def checkStep (inverseCmp : Cmp → Cmp) (r : Rule) (before after : E) : Bool :=
   match r with
   | .sortComparison => checkSortComparison inverseCmp before after
   | _ => before == after || ttCheck before after
+
+
+/-! ## text level: when may a pair of parentheses be dropped without changing how the printed SQL parses back?
+
+  `reparseSafe p pos c` abstracts the precedence ladder of the base-dialect parser (OR < AND < prefix NOT < =,<> <
+  <,<=,>,>= < IS / IN / BETWEEN < + - < * < unary minus < atoms): a child of kind `c` printed without parentheses in
+  operand slot `pos` (0 = this / left / subject, 1 = right / low bound / list member, 2 = high bound) of a parent of kind
+  `p` parses back with the same meaning.  Conservative (never `true` for an unsafe slot); validated on every run against
+  the real parser by the harness.  The guard list of `simplify_parens` is regenerated from the source (Generated/C06.lean:
+  `parensGuard`) and must only drop parentheses where this table says it is safe. -/
+inductive PKind
+  | none | func | paren | or | and | not | eq | rel | is | between | inList | add | sub | mul | neg | atom
+  deriving DecidableEq, Repr
+
+def parentKinds : List PKind := [.none, .func, .paren, .or, .and, .not, .eq, .rel, .is, .inList, .add, .sub, .mul, .neg]
+def childKinds : List PKind := [.paren, .or, .and, .not, .eq, .rel, .is, .between, .inList, .add, .sub, .mul, .neg, .atom, .func]
+
+/-- level of the parser's ladder at which a node of this kind is produced -/
+def prodLevel : PKind → Nat
+  | .or => 1
+  | .and => 2
+  | .not => 3
+  | .eq => 4
+  | .rel => 5
+  | .is | .between | .inList => 6
+  | .add | .sub => 8
+  | .mul => 9
+  | .neg => 10
+  | _ => 11
+
+def reparseSafe (p : PKind) (pos : Nat) (c : PKind) : Bool :=
+  match c with
+  | .not =>  -- a prefix NOT takes everything up to the next AND / OR as its operand
+    (match p with
+     | .none | .func | .paren | .or | .and | .not => true
+     | .inList => pos != 0
+     | _ => false)
+  | _ =>
+    match p with
+    | .none | .func | .paren | .atom | .or => true
+    | .and => prodLevel c ≥ 2
+    | .not => prodLevel c ≥ 4
+    | .eq => if pos = 0 then prodLevel c ≥ 4 else prodLevel c ≥ 5
+    | .rel => if pos = 0 then prodLevel c ≥ 5 else prodLevel c ≥ 6
+    | .is => prodLevel c ≥ 6
+    | .between => if pos = 0 then prodLevel c ≥ 6 else prodLevel c ≥ 7
+    | .inList => if pos = 0 then prodLevel c ≥ 6 else true
+    | .add => if pos = 0 then prodLevel c ≥ 8 else (prodLevel c ≥ 9 || c = .add || c = .sub)
+    | .sub => if pos = 0 then prodLevel c ≥ 8 else prodLevel c ≥ 9
+    | .mul => if pos = 0 then prodLevel c ≥ 9 else (prodLevel c ≥ 10 || c = .mul)
+    | .neg => prodLevel c ≥ 10
+
+/-- the slots of the repaired text-level defect (before the fix `simplify_parens` dropped the parentheses of a NOT / IN /
+    BETWEEN operand of + - * or unary minus: `(NOT a) + 1 → NOT a + 1`, `-(a IN (1)) → -a IN (1)`) -/
+def knownUnsafeParens (p c : PKind) : Bool :=
+  (p = .add || p = .sub || p = .mul || p = .neg) && (c = .not || c = .inList || c = .between)
+
+/-- snapshot of the guard list of `simplify_parens` as it was BEFORE that fix (kept only for the witness theorem; the live
+    guard is regenerated into Generated/C06.lean) -/
+def oldParensGuard (t p : PKind) : Bool :=
+  let pred := fun k => k = PKind.eq || k = .rel || k = .is || k = .between || k = .inList
+  let bin := fun k => k = PKind.eq || k = .rel || k = .is || k = .add || k = .sub || k = .mul || k = .or || k = .and
+  let conn := fun k => k = PKind.or || k = .and
+  if pred t && !(pred p || p = .neg || (bin p && !conn p)) then true
+  else if p = .none || p = .paren
+      || (!bin t && !((t = .not || t = .is) && pred p))
+      || (t = .add && p = .add) || (t = .mul && p = .mul) || (t = .mul && (p = .add || p = .sub)) then true
+  else false
 
 /-- what is checked on every observed `normalize(e, dnf) = e'`: equivalence (truth table) AND the result is in the
     requested normal form (mirrored `normalized`) or is the input (possibly with BETWEEN rewritten) -/
